@@ -6,7 +6,7 @@ set -e
 cd "$(dirname "$0")"
 export LC_ALL=C
 cd coq
-find . -name '*.v' ! -path './Run/cases*' | LC_ALL=C sort > .vfiles.new
+find . -name '*.v' ! -path './Run/cases*' | LC_ALL=C sort | { if [ -f .wip ]; then grep -v -x -F -f .wip; else cat; fi; } > .vfiles.new
 if [ ! -f Makefile ] || ! cmp -s .vfiles.new .vfiles; then
   mv .vfiles.new .vfiles
   coq_makefile -f _CoqProject $(cat .vfiles) -o Makefile > /dev/null
